@@ -8,7 +8,10 @@ Protocol handler for C10 (byte strings in hex, "-" = empty):
                 (reject also when the token is not an RFC 8259 string token: json.Valid runs first)
   scan <tok>    the CUE scanner lexes the token as one clean "…" STRING token: true | false
   sden <tok>    SPEC: `ok <hex of the denoted string> <wellPaired>` | `invalid`
-  num <tok>     what the decoder makes of a number token and how the encoder prints it back:
+  num <tok>     what the decoder makes of a number token: kind and exact value, normalised
+                (`<int|float> <-?digits>e<exp>`, trailing zeros moved into the exponent, zero = 0e0;
+                `bad:<hex>` when the decimal is NaN/Infinity) | `reject`
+  numfmt <tok>  the same token printed back by the encoder, byte for byte:
                 `<int|float> <hex of Append 'G'>` | `reject`
   nspec <tok>   SPEC: `<neg> <coeff> <exp> <isFloat>` | `invalid`
   setstr <s>    apd SetString: `finite <neg> <coeff> <exp> <err>` | `nan <neg> <err>` | `inf <neg> <err>`
@@ -21,6 +24,20 @@ open CueVerif CueVerif.Driver CueVerif.Json
 def kindStr : NumLit.Kind → String
   | .int => "int"
   | .float => "float"
+
+/-- strip factors of ten from a non-zero coefficient (fuel = number of digits is enough) -/
+def stripZeros : Nat → Nat → Int → Nat × Int
+  | 0, c, e => (c, e)
+  | fuel + 1, c, e => if c % 10 == 0 && c != 0 then stripZeros fuel (c / 10) (e + 1) else (c, e)
+
+/-- canonical exact decimal, as the harness prints it -/
+def normDec : ApdDec → String
+  | .finite neg c e =>
+    if c == 0 then "0e0"
+    else
+      let (c', e') := stripZeros (toString c).length c e
+      (if neg then "-" else "") ++ toString c' ++ "e" ++ toString e'
+  | d => "bad:" ++ hex (fmtDec d)
 
 def decStr : ApdDec × Bool → String
   | (.finite neg c e, err) => s!"finite {boolStr neg} {c} {e} {boolStr err}"
@@ -52,6 +69,16 @@ def handle (ws : List String) : String :=
       | none => "invalid"
       | some items => "ok " ++ hex (denote items) ++ " " ++ boolStr (wellPaired items)
   | ["num", h] =>
+    match unhex h with
+    | none => "bad-op"
+    | some t =>
+      match parseNumber t with
+      | none => "reject"
+      | some _ =>
+        match decodeNumber t with
+        | none => "reject"
+        | some (k, d) => kindStr k ++ " " ++ normDec d
+  | ["numfmt", h] =>
     match unhex h with
     | none => "bad-op"
     | some t =>
